@@ -37,9 +37,13 @@ func run(c *hlib.Ctx) {
 	w2["dupdelete"] = 4
 	open := lakeh.Profile{Name: "c14-open", W: w2, MaxOps: 10}
 	lakeh.RunWitnesses(c, "C14", lakeh.Options{Prop: "C14", Determinism: 2, StopOnFail: true})
+	if c.Want("exhaustive") {
+		lakeh.RunExhaustive(c, lakeh.Options{Prop: "C14", StopOnFail: true}, nil,
+			[]string{"La", "Lb", "D1", "Da", "W", "C", "V"}, c.N(2, 3))
+	}
 	lakeh.RunPlan(c, lakeh.Plan{
 		Opt:      lakeh.Options{Prop: "C14", Determinism: 2, Reopen: true, StopOnFail: true},
 		Profiles: []lakeh.Profile{guarded, guarded, open},
-		Quick:    100, Thorough: 2500,
+		Quick:    70, Thorough: 2500,
 	})
 }
